@@ -42,7 +42,7 @@ def run_jobs(jobs, procs=PROCS, timeout=600.0):
         elif st == "timeout":
             # a run that hangs is an event no PSRun action matches
             trs = [{"cfg": {"np": 1, "one": 1, "target": 0, "nTotal": 0, "metric": "ess", "clustering": False, "clusterEvery": 1, "cap": 0,
-                            "minSweeps": 1, "maxSweeps": 1},
+                            "minSweeps": 1, "maxSweeps": 1, "periodic": [], "reflective": []},
                     "events": [{"ev": "Raised", "what": f"run did not complete within {r:.0f}s (hang)", "step": "?"}],
                     "meta": {"label": j.get("label", ""), "seed": j.get("seed"), "conf": j.get("conf"), "dbg": [None]}}]
         else:
